@@ -33,6 +33,20 @@ fn splits3(len: usize, pos: &[usize]) -> Vec<Vec<usize>> {
     out
 }
 
+/// All 4-splits (three cuts) over the given positions.
+fn splits4(len: usize, pos: &[usize]) -> Vec<Vec<usize>> {
+    let p: Vec<usize> = pos.iter().cloned().filter(|c| *c > 0 && *c < len).collect();
+    let mut out = Vec::new();
+    for i in 0..p.len() {
+        for j in i + 1..p.len() {
+            for k in j + 1..p.len() {
+                out.push(vec![p[i], p[j], p[k]]);
+            }
+        }
+    }
+    out
+}
+
 /// Cut positions for a message of `len` bytes with structural boundaries `bounds`:
 /// every position for short messages, a neighbourhood of each boundary plus a stride otherwise.
 fn positions(len: usize, bounds: &[usize], radius: usize, full_below: usize) -> Vec<usize> {
@@ -136,9 +150,15 @@ fn recv_server(rep: &mut Report, res: &Resources, thorough: bool) {
         }
         let body_end = len;
         let pos = positions(len, &[12], if thorough { 24 } else { 8 }, if thorough { 80 } else { 56 });
-        let mut plans: Vec<Vec<usize>> = splits2(len, &pos);
+        // thorough: every single cut position of every message, every 3-split of messages up to
+        // 80 bytes, every 4-split of messages up to 36 bytes (and around the header boundary of longer ones)
+        let all: Vec<usize> = (1..len).collect();
+        let mut plans: Vec<Vec<usize>> = splits2(len, if thorough { &all } else { &pos });
         if len > 1 {
             plans.push((1..len).collect()); // byte by byte
+        }
+        if thorough {
+            plans.extend(splits4(len, &if len <= 36 { all.clone() } else { positions(len, &[12], 3, 0).into_iter().filter(|c| *c % 61 != 0 || *c <= 16).collect::<Vec<_>>() }));
         }
         if thorough || len <= 24 {
             plans.extend(splits3(len, &pos));
@@ -256,8 +276,12 @@ fn recv_frontend(rep: &mut Report, res: &Resources, thorough: bool) {
             _ => len - 12,
         };
         let pos = positions(len, &[12, body], if thorough { 24 } else { 6 }, if thorough { 80 } else { 48 });
-        let mut plans = splits2(len, &pos);
+        let all: Vec<usize> = (1..len).collect();
+        let mut plans = splits2(len, if thorough { &all } else { &pos });
         plans.push((1..len).collect());
+        if thorough {
+            plans.extend(splits4(len, &if len <= 36 { all.clone() } else { positions(len, &[12, body], 2, 0).into_iter().filter(|c| *c % 61 != 0 || *c <= 16).collect::<Vec<_>>() }));
+        }
         if thorough || len <= 24 {
             plans.extend(splits3(len, &pos));
         } else {
@@ -671,7 +695,7 @@ pub fn run(rep: &mut Report) {
     rep.sample(json!({"part": "recv_server", "req": "SET_VRING_ADDR", "cuts": [13], "expect": "same handler call, same ack as unsplit"}));
     rep.sample(json!({"part": "trunc_server", "req": "SET_VRING_NUM", "cut": 15, "expect": "error other than Disconnected, handler not called"}));
     rep.sample(json!({"part": "send_frontend", "op": "SetMemTable", "steps": ["Accept(5)", "Accept(7)"], "expect": "bytes exactly once in order, descriptors at offset 0 only"}));
-    rep.rule = "receivers (backend server, frontend reply paths, frontend request server, proxy ack/reply paths): every message type x every 2-split (all positions for short messages, neighbourhood of each structural boundary + stride 61 for long ones), byte-by-byte, 3-splits, and every cut offset followed by close; senders (frontend, backend server, both proxies): every single short write position, pairs of short writes, EAGAIN/EINTR patterns. Non-trivial = a delivery with a cut beyond the header that was reassembled, a truncation that produced the prescribed error, or a short-write pattern that produced the byte stream exactly once".into();
+    rep.rule = "receivers (backend server, frontend reply paths, frontend request server, proxy ack/reply paths): every message type x every 2-split (quick: all positions for short messages, neighbourhood of each structural boundary + stride 61 for long ones; thorough: every position of every message), byte-by-byte, 3-splits (thorough: all for messages up to 80 bytes), 4-splits at thorough (all for messages up to 36 bytes, around the structural boundaries otherwise), and every cut offset followed by close; senders (frontend, backend server, both proxies): every single short write position, pairs of short writes, EAGAIN/EINTR patterns. Non-trivial = a delivery with a cut beyond the header that was reassembled, a truncation that produced the prescribed error, or a short-write pattern that produced the byte stream exactly once".into();
     rep.assumptions.push("segmentation is produced by a raw peer that writes the next segment only when the receiver starts waiting (real kernel socket semantics); short writes by capping sendmsg in the interposer".into());
 }
 
